@@ -1,6 +1,7 @@
 import NTV.Model.Round2
 import NTV.Proofs.Lemmas.TrialProofs
 import NTV.Proofs.C02
+import NTV.Proofs.Lemmas.Round2ProofsG
 /-! # C06 — integral basis (Round 2): what is proved so far.
 Closure under multiplication and p-maximality of the result (Pohst–Zassenhaus) are not proved; they are
 certified on every explored case by an independent oracle (`NTV.Spec.MaxOrder`: ring test, containment of
@@ -28,5 +29,164 @@ theorem zero_discriminant_refused (f : List Int) (o : NTV.Round2.Order)
     (ho : NTV.Ord.nonMonicInitialOrder f = .ok o) (hd : NTV.Ord.discriminantOrd o f = .ok 0) :
     NTV.Round2.findIntegralBasis f = .error "panic assert" := by
   simp [NTV.Round2.findIntegralBasis, ho, hd, bind, Except.bind]
+
+/-! ## The structural clauses: the result is a full-rank ℤ-module containing the starting order and 1, and its
+discriminant is the discriminant of the starting order divided by the square of the index
+
+An order is its stored basis `o : List (List Rat)`; `Rect n n o` says n rows of length n and `toM n n o` is the
+Mathlib matrix. "The module of `o` is contained in the module of `o'`" is `toM o = P·toM o'` for an INTEGER matrix
+`P`; "stored" is `fromBasis o = .ok o` (a fixed point of `Order::from_basis`). Helper lemmas:
+`NTV.Proofs.Lemmas.Round2ProofsA`–`G`. -/
+section Structural
+open Matrix
+open NTV.Ord NTV.Round2 NTV.PolyG
+open NTV.RowOps (toM Rect)
+
+/-- **one Round 2 step enlarges the order.** For a non-singular stored n×n order `o` (n = deg f ≥ 1) and p ≥ 1
+(in particular p prime), a successful `one_step` returns a non-singular stored n×n order `o'` whose module CONTAINS
+the module of `o` (the last normal form `u` is taken of generators that include p·I, and the new basis is
+(1/p)·u·o), with index exactly (o' : o) = p^howmany (the returned counter), hence (C15)
+disc(o) = p^(2·howmany)·disc(o') whenever disc(o') is computed. -/
+theorem one_step_contains (f : List Int) (o o' : Order) (p : Int) (h : Nat) (hn : 0 < degU f)
+    (ho : Rect (degU f) (degU f) o) (hdet : (toM (degU f) (degU f) o).det ≠ 0) (hst : fromBasis o = .ok o)
+    (hp : 0 < p) (H : oneStep f o p = .ok (o', h)) :
+    Rect (degU f) (degU f) o' ∧ (toM (degU f) (degU f) o').det ≠ 0 ∧ fromBasis o' = .ok o' ∧
+    (∃ P : Matrix (Fin (degU f)) (Fin (degU f)) ℤ,
+      toM (degU f) (degU f) o = P.map (Int.castRingHom ℚ) * toM (degU f) (degU f) o') ∧
+    index o' o = .ok (p ^ h) ∧
+    (∀ d' : Int, discriminantOrd o' f = .ok d' → discriminantOrd o f = .ok (p ^ (2 * h) * d')) := by
+  have e := oneStep_ext f o p o' h hn ho hdet hst hp H
+  refine ⟨e.rect, e.det, e.stored, e.sub, e.idx, ?_⟩
+  intro d' hd'
+  have := disc_of_ext' ho e f d' hd'
+  rwa [← pow_two, ← pow_mul, Nat.mul_comm] at this
+
+/-- the converse direction for one step: disc(o') = disc(o)/p^(2·howmany) is computed without a panic PROVIDED
+p^(2·howmany) divides disc(o). Partial: the divisibility (integrality of the discriminant of the new module) is
+not a structural fact — it holds because the new module is a ring (Pohst–Zassenhaus, out of scope); inside
+`find_integral_basis` it is guaranteed by the checked subtraction `e -= 2 * howmany` (see `prime_loop_contains`). -/
+theorem one_step_discriminant_partial (f : List Int) (o o' : Order) (p : Int) (h : Nat) (hn : 0 < degU f)
+    (ho : Rect (degU f) (degU f) o) (hdet : (toM (degU f) (degU f) o).det ≠ 0) (hst : fromBasis o = .ok o)
+    (hp : 0 < p) (H : oneStep f o p = .ok (o', h)) (d : Int) (hd : discriminantOrd o f = .ok d)
+    (hdvd : p ^ (2 * h) ∣ d) :
+    ∃ d' : Int, discriminantOrd o' f = .ok d' ∧ d = p ^ (2 * h) * d' := by
+  have e := oneStep_ext f o p o' h hn ho hdet hst hp H
+  obtain ⟨d', rfl⟩ := hdvd
+  refine ⟨d', disc_of_ext ho e f _ d' hd ?_, rfl⟩
+  rw [← pow_two, ← pow_mul, Nat.mul_comm]
+
+/-- non-vacuity: f = x² + 3, o = Z[θ] (the identity matrix), p = 2: one step reaches Z[(1+θ)/2], howmany = 1 -/
+example : 0 < degU ([3, 0, 1] : List Int) ∧ fromBasis [[1, 0], [0, 1]] = .ok [[1, 0], [0, 1]] ∧
+    oneStep [3, 0, 1] [[1, 0], [0, 1]] 2 = .ok ([[1, 0], [1/2, 1/2]], 1) ∧
+    discriminantOrd [[1, 0], [0, 1]] [3, 0, 1] = .ok (-12) ∧
+    discriminantOrd [[1, 0], [1/2, 1/2]] [3, 0, 1] = .ok (-3) := by
+  decide +kernel
+
+example : Rect 2 2 ([[1, 0], [0, 1]] : QMat) ∧ (toM 2 2 ([[1, 0], [0, 1]] : QMat)).det ≠ 0 := by
+  refine ⟨⟨rfl, by simp⟩, ?_⟩
+  rw [Matrix.det_fin_two]
+  simp [toM, NTV.RowOps.ent]
+
+/-- **the loop for one prime.** `while e >= 2 { one_step; e -= 2·howmany; … }` started on a non-singular stored
+order `o` returns a non-singular stored order `o'` ⊇ `o` with (o' : o) = p^k, 2k ≤ e; and if p^e divides disc(o)
+(as it does in `find_integral_basis`, where e is the exponent of p in the discriminant) then disc(o') is computed
+without a panic and disc(o) = p^(2k)·disc(o'). -/
+theorem prime_loop_contains (f : List Int) (p : Int) (fuel : Nat) (o o' : Order) (e : Nat) (hn : 0 < degU f)
+    (ho : Rect (degU f) (degU f) o) (hdet : (toM (degU f) (degU f) o).det ≠ 0) (hst : fromBasis o = .ok o)
+    (hp : 0 < p) (H : primeLoop f p fuel o e = .ok o') :
+    ∃ k : Nat, 2 * k ≤ e ∧
+    Rect (degU f) (degU f) o' ∧ (toM (degU f) (degU f) o').det ≠ 0 ∧ fromBasis o' = .ok o' ∧
+    (∃ P : Matrix (Fin (degU f)) (Fin (degU f)) ℤ,
+      toM (degU f) (degU f) o = P.map (Int.castRingHom ℚ) * toM (degU f) (degU f) o') ∧
+    index o' o = .ok (p ^ k) ∧
+    (∀ d : Int, discriminantOrd o f = .ok d → p ^ e ∣ d →
+      ∃ d' : Int, discriminantOrd o' f = .ok d' ∧ d = p ^ (2 * k) * d') := by
+  obtain ⟨k, hk, ext⟩ := primeLoop_ext f p hp hn fuel o e o' ho hdet hst H
+  refine ⟨k, hk, ext.rect, ext.det, ext.stored, ext.sub, ext.idx, ?_⟩
+  intro d hd hdvd
+  obtain ⟨d', rfl⟩ := dvd_trans (pow_dvd_pow p hk) hdvd
+  refine ⟨d', disc_of_ext ho ext f _ d' hd ?_, rfl⟩
+  rw [← pow_two, ← pow_mul, Nat.mul_comm]
+
+/-- non-vacuity: f = x² + 3, p = 2, e = 2 (disc = −12 = −2²·3) -/
+example : primeLoop [3, 0, 1] 2 3 [[1, 0], [0, 1]] 2 = .ok [[1, 0], [1/2, 1/2]] ∧ (2 : Int) ^ 2 ∣ -12 := by
+  decide +kernel
+
+/-- **the result contains the starting order and 1; discriminant = disc(start) / index².** If
+`find_integral_basis(f)` returns `O`, then the starting order `S = non_monic_initial_order(f)` (Z[θ] ∩ Z[1/θ]) and
+its non-zero discriminant `dS` were computed, n = deg f ≥ 1, and
+* `O` is a full-rank module: a non-singular stored n×n matrix;
+* `S ⊆ O`: the basis of `S` is an integer matrix times the basis of `O`;
+* `index(O, S)` returns i ≥ 1, i² divides dS, so every prime factor of i has its square dividing dS;
+* `O.discriminant` returns `dO` (no panic) and dS = i²·dO — the discriminant of the starting order divided by the
+  square of the index;
+* 1 ∈ O: the vector (1,0,…,0) is an integer combination of the rows of `O`;
+* the CLI output `index_and_disc` is exactly (i, dO).
+No hypothesis on `f` is needed beyond the success of the routine. -/
+theorem result_contains_start (f : List Int) (O : Order) (H : findIntegralBasis f = .ok O) :
+    ∃ (S : Order) (dS i dO : Int),
+      nonMonicInitialOrder f = .ok S ∧ discriminantOrd S f = .ok dS ∧ dS ≠ 0 ∧ 0 < degU f ∧
+      Rect (degU f) (degU f) S ∧
+      Rect (degU f) (degU f) O ∧ (toM (degU f) (degU f) O).det ≠ 0 ∧ fromBasis O = .ok O ∧
+      (∃ P : Matrix (Fin (degU f)) (Fin (degU f)) ℤ,
+        toM (degU f) (degU f) S = P.map (Int.castRingHom ℚ) * toM (degU f) (degU f) O) ∧
+      index O S = .ok i ∧ 1 ≤ i ∧ i ^ 2 ∣ dS ∧
+      (∀ q : Nat, q.Prime → (q : Int) ∣ i → (q : Int) ^ 2 ∣ dS) ∧
+      discriminantOrd O f = .ok dO ∧ dS = i ^ 2 * dO ∧
+      (∃ c : Fin (degU f) → ℤ,
+        (fun k => (c k : ℚ)) ᵥ* toM (degU f) (degU f) O = fun j => if j.val = 0 then 1 else 0) ∧
+      indexAndDisc f O = .ok (i, dO) := by
+  unfold findIntegralBasis at H
+  obtain ⟨S, hS, H⟩ := (bind_ok _ _ _).mp H
+  obtain ⟨dS, hdS, H⟩ := (bind_ok _ _ _).mp H
+  split at H
+  · cases H
+  · rename_i hd0
+    obtain ⟨hn, rS, dtS, sS, c, hc⟩ := start_good f S dS hS hdS hd0
+    have hfac := NTV.Trial.factorize_correct dS.natAbs (by omega)
+    obtain ⟨i, ext, hi⟩ := fold_ext f hn (NTV.Trial.factorize dS.natAbs)
+      (fun pe hpe => ((hfac.2.1 pe hpe).1).pos) S O rS dtS sS H
+    rw [← hfac.1, Int.dvd_natAbs] at hi
+    obtain ⟨dO, hdO⟩ := hi
+    have hdO' : dS = i ^ 2 * dO := by rw [hdO]; ring
+    have hO := disc_of_ext rS ext f dS dO hdS hdO
+    obtain ⟨P, hP⟩ := ext.sub
+    refine ⟨S, dS, i, dO, hS, hdS, hd0, hn, rS, ext.rect, ext.det, ext.stored, ⟨P, hP⟩, ext.idx, ext.pos,
+      ⟨dO, hdO'⟩, ?_, hO, hdO', ?_, ?_⟩
+    · intro q _ hq
+      exact dvd_trans (pow_dvd_pow_of_dvd hq 2) ⟨dO, hdO'⟩
+    · refine ⟨c ᵥ* P, ?_⟩
+      have := castV_vecMul c P
+      unfold castV at this hc
+      rw [this, ← hc, hP, Matrix.vecMul_vecMul]
+    · unfold indexAndDisc
+      simp [hS, ext.idx, hO, bind, Except.bind, pure, Except.pure]
+
+/-- what the CLI prints (`index_and_disc`) for the returned order is the pair (i, dO) of `result_contains_start`:
+whenever the three calls succeed separately, that is the printed pair -/
+theorem printed_index_and_disc (f : List Int) (O S : Order) (i dO : Int)
+    (hS : nonMonicInitialOrder f = .ok S) (hi : index O S = .ok i) (hd : discriminantOrd O f = .ok dO) :
+    indexAndDisc f O = .ok (i, dO) := by
+  unfold indexAndDisc
+  simp [hS, hi, hd, bind, Except.bind, pure, Except.pure]
+
+/-- non-vacuity: f = x² + 3 and f = x² − 5: the maximal orders Z[(1+θ)/2] have index 2 in Z[θ], and
+disc −12 = 2²·(−3), 20 = 2²·5 -/
+example : findIntegralBasis [3, 0, 1] = .ok [[1, 0], [1/2, 1/2]] ∧
+    indexAndDisc [3, 0, 1] [[1, 0], [1/2, 1/2]] = .ok (2, -3) ∧
+    discriminantOrd [[1, 0], [0, 1]] [3, 0, 1] = .ok (-12) := by
+  decide +kernel
+
+example : findIntegralBasis [-5, 0, 1] = .ok [[1, 0], [1/2, 1/2]] ∧
+    indexAndDisc [-5, 0, 1] [[1, 0], [1/2, 1/2]] = .ok (2, 5) ∧
+    discriminantOrd [[1, 0], [0, 1]] [-5, 0, 1] = .ok 20 := by
+  decide +kernel
+
+/-- non-vacuity for a non-monic f = 4x³ + 2: start Z[θ] ∩ Z[1/θ], index 4 -/
+example : findIntegralBasis [2, 0, 0, 4] = .ok [[1, 0, 0], [0, 2, 0], [0, 0, 2]] ∧
+    indexAndDisc [2, 0, 0, 4] [[1, 0, 0], [0, 2, 0], [0, 0, 2]] = .ok (4, -108) := by
+  decide +kernel
+
+end Structural
 
 end NTV.C06
